@@ -97,8 +97,8 @@ pub fn explore<BF, F>(
         // the subtree below a state depends on the compiler input, the reachable handles AND
         // the family budget left (folding lets a longer history reach the same DAG)
         let prune_key = h128(&format!(
-            "{key}#{hs:?}#{}/{}/{}/{}/{}/{:?}",
-            _st.n_value, _st.n_assert, _st.n_wide, _st.n_pub, _st.n_priv, _st.last_assert
+            "{key}#{hs:?}#{}/{}/{}/{:?}/{}/{:?}",
+            _st.n_value, _st.n_assert, _st.n_wide, (_st.n_pub, _st.stage, _st.in_stage, &_st.handle_stage), _st.n_priv, _st.last_assert
         ));
         let newkey = seen_keys.insert(h128(&key));
         if newkey {
@@ -114,10 +114,10 @@ pub fn explore<BF, F>(
     // level 1 sequentially (few), collect level-2 units
     for (p, st) in &units {
         if visit(p, st) {
-            for c in crate::enumerate::next_calls(fam, st) {
+            for (c, si) in crate::enumerate::next_calls_staged(fam, st) {
                 let mut q = p.clone();
                 q.calls.push(c.clone());
-                units2.push((q, st.after(&c)));
+                units2.push((q, st.after_staged(&c, si)));
             }
         }
     }
@@ -141,8 +141,8 @@ pub fn explore<BF, F>(
         hs.sort();
         hs.dedup();
         let prune_key = h128(&format!(
-            "{key}#{hs:?}#{}/{}/{}/{}/{}/{:?}",
-            st.n_value, st.n_assert, st.n_wide, st.n_pub, st.n_priv, st.last_assert
+            "{key}#{hs:?}#{}/{}/{}/{:?}/{}/{:?}",
+            st.n_value, st.n_assert, st.n_wide, (st.n_pub, st.stage, st.in_stage, &st.handle_stage), st.n_priv, st.last_assert
         ));
         if seen_keys.insert(h128(&key)) {
             stats.canonical.fetch_add(1, Ordering::Relaxed);
